@@ -956,3 +956,77 @@ func (c *countingWriter) Write(b []byte) (int, error) {
 	c.w.resp(okR(true))
 	return len(b), nil
 }
+
+// ---------------------------------------------------------------- a custom DelegateActor (for an actor with both
+// protocols disabled: whatever it is asked is recorded)
+
+type fakeDelegate struct{ w *world }
+
+func (d fakeDelegate) note(name string) {
+	d.w.call(name, false)
+	d.w.resp(okR(nil))
+}
+func (d fakeDelegate) PostInboxRequestBodyHook(c context.Context, r *http.Request, activity pub.Activity) (context.Context, error) {
+	d.note("hookInbox")
+	return c, nil
+}
+func (d fakeDelegate) PostOutboxRequestBodyHook(c context.Context, r *http.Request, data vocab.Type) (context.Context, error) {
+	d.note("hookOutbox")
+	return c, nil
+}
+func (d fakeDelegate) AuthenticatePostInbox(c context.Context, w http.ResponseWriter, r *http.Request) (context.Context, bool, error) {
+	d.note("authPostInbox")
+	return c, true, nil
+}
+func (d fakeDelegate) AuthenticateGetInbox(c context.Context, w http.ResponseWriter, r *http.Request) (context.Context, bool, error) {
+	d.note("authGetInbox")
+	return c, true, nil
+}
+func (d fakeDelegate) AuthorizePostInbox(c context.Context, w http.ResponseWriter, activity pub.Activity) (bool, error) {
+	d.note("delegate:AuthorizePostInbox")
+	return true, nil
+}
+func (d fakeDelegate) PostInbox(c context.Context, inboxIRI *url.URL, activity pub.Activity) error {
+	d.note("delegate:PostInbox")
+	return nil
+}
+func (d fakeDelegate) InboxForwarding(c context.Context, inboxIRI *url.URL, activity pub.Activity) error {
+	d.note("delegate:InboxForwarding")
+	return nil
+}
+func (d fakeDelegate) PostOutbox(c context.Context, a pub.Activity, outboxIRI *url.URL, rawJSON map[string]interface{}) (bool, error) {
+	d.note("delegate:PostOutbox")
+	return true, nil
+}
+func (d fakeDelegate) AddNewIDs(c context.Context, a pub.Activity) error {
+	d.note("delegate:AddNewIDs")
+	u, _ := url.Parse("https://a.example/activities/delegate-id")
+	id := streams.NewJSONLDIdProperty()
+	id.Set(u)
+	a.SetJSONLDId(id)
+	return nil
+}
+func (d fakeDelegate) Deliver(c context.Context, outbox *url.URL, activity pub.Activity) error {
+	d.note("delegate:Deliver")
+	return nil
+}
+func (d fakeDelegate) AuthenticatePostOutbox(c context.Context, w http.ResponseWriter, r *http.Request) (context.Context, bool, error) {
+	d.note("authPostOutbox")
+	return c, true, nil
+}
+func (d fakeDelegate) AuthenticateGetOutbox(c context.Context, w http.ResponseWriter, r *http.Request) (context.Context, bool, error) {
+	d.note("authGetOutbox")
+	return c, true, nil
+}
+func (d fakeDelegate) WrapInCreate(c context.Context, value vocab.Type, outboxIRI *url.URL) (vocab.ActivityStreamsCreate, error) {
+	d.note("delegate:WrapInCreate")
+	return streams.NewActivityStreamsCreate(), nil
+}
+func (d fakeDelegate) GetOutbox(c context.Context, r *http.Request) (vocab.ActivityStreamsOrderedCollectionPage, error) {
+	d.note("appGetOutbox")
+	return streams.NewActivityStreamsOrderedCollectionPage(), nil
+}
+func (d fakeDelegate) GetInbox(c context.Context, r *http.Request) (vocab.ActivityStreamsOrderedCollectionPage, error) {
+	d.note("appGetInbox")
+	return streams.NewActivityStreamsOrderedCollectionPage(), nil
+}
